@@ -234,3 +234,13 @@ extend("C08", "superseded fragment files removed only after the record update su
 extend("C12", "single-fragment transmissions: finished state from the first fragment's end mark")
 extend("C13", "previous node looked for on every path of NotifyNewBundle; peer identity written at set-up only")
 extend("C18", "peer identity written at set-up only (the failed peer can be found again after the session was lost)")
+
+# round g of seeding
+extend("C04", "wire-controlled element index: guard analysis over dominating conditions (index derived from, or counting up to, a length read from the input)",
+       "An element of a slice is addressed with an index the input controls (directly, or as the counter of a loop that runs up to an announced count) only under a dominating comparison of that index with len() of the slice or with a constant.")
+extend("C06", "stale-pointer path rule: no CFG path look-up -> block-list change -> use of the *CanonicalBlock without a new look-up",
+       "A pointer into the block slice handed out by ExtensionBlock/PayloadBlock is not used after a block was removed, added or the blocks were sorted on the same path (the per-hop updates would land in another block).")
+extend("C10", "placement of the merged tail: accumulator/frontier lockstep over the loop's phi edges",
+       "The part of a fragment beyond the merged prefix is written at the frontier: appended to an accumulator that starts empty and moves in lockstep with the frontier on every loop edge, or copied to accumulator[frontier:].")
+extend("C17", "code-table agreement by concrete evaluation of IsValid() on every value of the one-byte range against the declared constants",
+       "For every one-byte code type with IsValid(), the method (evaluated on constants through its String() or switch table) accepts exactly the declared constants: a code the node can write is a code it can read, and no undeclared value is accepted.")
